@@ -51,6 +51,15 @@ def gen_cases(tier):
                         strings = strings[:1]
                     for s in strings:
                         cases.append({"kind": "list", "args": list(perm), "input": s})
+    # lists with a REPEATED entry (the value clause covers them: the repeated distance stays; increments and boundaries
+    # are only stated for distinct radii)
+    for a, b in itertools.permutations(DEC[:6] if tier == "quick" else DEC, 2):
+        for perm in sorted(set(itertools.permutations([a, a, b]))):
+            cases.append({"kind": "list", "args": list(perm), "input": "[" + ", ".join(perm) + "]"})
+        cases.append({"kind": "list", "args": [a, b, b, a], "input": f"({a},{b},{b},{a})"})
+    for a in DEC[:6]:
+        cases.append({"kind": "list", "args": [a, a], "input": f"[{a}, {a}]"})
+        cases.append({"kind": "linspace", "args": [a, a, "3"], "input": f"linspace({a}, {a}, 3)"})
     # alternative spellings of the same decimals: exponent notation, bare leading/trailing dot, explicit plus sign,
     # trailing zeros, trailing comma, tabs and newlines as whitespace, nested parentheses
     ALT = {"0.05": ["5e-2", ".05", "+0.05", "0.050"], "0.1": ["1e-1", ".1", "1E-1", "0.10"], "0.25": [".25", "2.5e-1"],
@@ -133,6 +142,22 @@ def gen_cases(tier):
                     strs = ws_variants("(", args, ")", prefix=name)[:(3 if bi % 10 == 0 else 1)]
                     for s in strs:
                         cases.append({"kind": "range", "args": args, "input": s})
+    # stops slightly BEYOND a lattice point (the last lattice point is a legitimate radius) and steps that are small
+    # relative to the stop (the end-point filter must not swallow the last legitimate radius)
+    for a, st, k in (("1", "1", 4), ("0.25", "0.25", 3), ("0", "0.5", 6), ("2", "0.1", 7)):
+        for eps in ("0.00001", "0.0001", "0.0005", "0.002", "0.01"):
+            b = str(F(a) + F(st) * k + F(eps) * F(st))
+            b = dec(b) if "/" in b else b
+            args = [a, b, st]
+            cases.append({"kind": "range", "args": args, "input": f"range({a}, {b}, {st})"})
+            cases.append({"kind": "range", "args": args, "input": f"arange({a}, {b}, {st})"})
+            if st == "1":
+                cases.append({"kind": "range", "args": [a, b], "input": f"range({a}, {b})"})
+                if a == "0":
+                    cases.append({"kind": "range", "args": [b], "input": f"range({b})"})
+    for a, b, st in (("9.99", "10", "0.0001"), ("99.9", "100", "0.001"), ("5", "5.01", "0.00005"), ("0", "20", "0.0002"),
+                     ("10", "9.99", "-0.0001"), ("3", "2.999", "-0.00002")):
+        cases.append({"kind": "range", "args": [a, b, st], "input": f"range({a}, {b}, {st})"})
     # twins: the array a linspace/range text generates, written out as a list with the very same floats -> byte-identical
     # radii, so the identifier must be identical too
     import numpy as _np
